@@ -104,6 +104,11 @@ def run_f2(out, eng):
     def body(ctx):
         cell = Cell(Lazy(ENUM + "<AuxData>", "data"), "data")
         r = ctx.run_fn(f, [Ref(cell, ())])
+        v = cell.v
+        if isinstance(v, Lazy):
+            v = ctx.as_agg(v)
+            cell.v = v
+        ctx.variant_of(v)          # pin down which variant this path is about
         return r, cell, ctx
     t0 = time.time()
     try:
